@@ -266,11 +266,17 @@ func init() {
 			return Struct{in.ts.Const(64, 0), in.ts.Const(64, 0), (*Value)(nil)}
 		},
 		"time.Since": func(in *Interp, _ *frame, _ token.Pos, _ []Value) Value {
-			if in.w.cfg.Concrete == nil && in.timeNondet {
-				t := in.freshVar(64, "time")
-				in.record("time", t)
-				in.assume(in.ts.Cmp(OSLe, in.ts.Const(64, 0), t), "time.Since >= 0")
-				return t
+			if in.timeNondet {
+				// one symbolic elapsed time per path: every deadline test on this
+				// path sees the same "how long ago" (all expired / none expired /
+				// any threshold in between, but not mixtures over time)
+				if in.timeVal == nil {
+					t := in.freshVar(64, "time")
+					in.record("time", t)
+					in.assume(in.ts.Cmp(OSLe, in.ts.Const(64, 0), t), "time.Since >= 0")
+					in.timeVal = t
+				}
+				return in.timeVal
 			}
 			return in.ts.Const(64, 0)
 		},
@@ -280,6 +286,15 @@ func init() {
 			ch.buf = append(ch.buf, Struct{in.ts.Const(64, 0), in.ts.Const(64, 0), (*Value)(nil)})
 			return ch
 		},
+		"time.NewTimer": func(in *Interp, _ *frame, _ token.Pos, _ []Value) Value {
+			// a timer whose first tick is already pending; later ticks are not modelled
+			ch := in.newChan(1, nil)
+			ch.buf = append(ch.buf, Struct{in.ts.Const(64, 0), in.ts.Const(64, 0), (*Value)(nil)})
+			var t Value = Struct{ch, in.ts.tFalse}
+			return &t
+		},
+		"(*time.Timer).Reset": func(in *Interp, _ *frame, _ token.Pos, _ []Value) Value { return in.ts.tTrue },
+		"(*time.Timer).Stop":  func(in *Interp, _ *frame, _ token.Pos, _ []Value) Value { return in.ts.tTrue },
 		"time.Sleep": func(in *Interp, _ *frame, _ token.Pos, _ []Value) Value { in.schedPoint(); return nil },
 		"(time.Time).Sub": func(in *Interp, _ *frame, _ token.Pos, _ []Value) Value {
 			return in.ts.Const(64, 0)
